@@ -1,6 +1,7 @@
 import CacheVerif.Proofs.CacheLedger
 import CacheVerif.Proofs.TableRefine
 import CacheVerif.Proofs.ProtoLin
+import CacheVerif.Proofs.DeepSource
 /-!
 # C08 — Size / Count is exact whenever no modification is in flight (sequential part)
 
@@ -50,6 +51,12 @@ theorem C08_after_clear (s : St K V) :
   ⟨rfl, rfl⟩
 
 /-! ### the hash tables -/
+
+/-- the same for the text of `Count` in both cache-layer files: the number of entries physically present (expired
+but not yet cleaned ones included), nothing modified -/
+theorem C08_source_count (s : St K V) (T : Deep.Twin K V) (hT : DeepSource.IsTwin T) :
+    Deep.deepStep T s .count = some (s, { out := .count s.items.length }) := by
+  rw [DeepSource.step s _ T hT]; rfl
 
 section table
 open Model.Table Proofs.TableRefine
